@@ -4,13 +4,22 @@ from props import C20_text
 RULE = ("documents x read schedules (1-byte, periodic, whole) x buffer sizes x a fault injected at sampled read-call indices, one-shot (the caller retries) "
         "and persistent; oracle on the implementation: tokens produced = prefix of the fault-free tokens, no clean end before the data ends, persistent "
         "faults are reported, position <= bytes delivered, no panic. non-trivial = the fault was actually hit (an I/O error surfaced)")
+# >>> a_c20 (wave 4)
+RULE += ("; + op mixes of next/read/read_bytes/skip_container/skip_unquoted_value (text) and next/read/read_bytes/skip_container (binary) "
+         "with retries: every faulty run is compared op by op with its fault-free twin (result, position, read calls, bytes delivered: the "
+         "op that issues the failing read call returns ReaderErrorKind::Read, earlier ops are identical, an unreached fault changes nothing), "
+         "error accessors / conversions into jomini::Error, all-optional typed targets (serde derive, JominiDeserialize) through both reader "
+         "deserializers with a fault at every read call, and the extracted binary reader-deserializer model on the same fault schedules")
+# <<< a_c20
 TRUSTED = ["std::io::Read failure modelled as a Fail event in the schedule (BufWin.rd_read)"]
 ASSUMPTIONS = ["a caller may retry after a transient error (retry harness); the property does not require that, it only constrains calls that succeed"]
 
 
 def run(ctx):
     C20_text.run_text_reader(ctx)
-    for name in ("C20_bin", "C20_de"):
+    # >>> a_c20 (wave 4): + C20_ops = every reader operation under faults, error accessors, typed all-optional targets
+    for name in ("C20_bin", "C20_de", "C20_ops"):
+    # <<< a_c20
         try:
             m = __import__("props." + name, fromlist=["x"])
         except ImportError:
